@@ -95,7 +95,7 @@ def source_files(subdirs=None):
     fs = []
     for f in sorted(glob.glob(os.path.join(COQ_DIR, '*', '*.v'))):
         base = os.path.basename(f)
-        if base.startswith('cases_') or base.startswith('tmp_'):
+        if base.startswith('cases_') or base.startswith('tmp_') or os.path.basename(os.path.dirname(f)) == 'Tmp':
             continue
         if subdirs is not None and os.path.basename(os.path.dirname(f)) not in subdirs:
             continue
